@@ -108,39 +108,64 @@ def model_check(ctx, mcs, *, workers=3, parallel=2, timeout_s=600, coverage_firs
     return results
 
 
-def witnesses(ctx, mc, names, *, must=True, workers=1, timeout_s=300):
-    """Witness-directed behaviours: a shortest behaviour ending in a Collect for every rare step."""
-    out = []
-    for w in names:
-        c = mc.write(ctx, "wit.cfg", True, [w])
-        r = T.tlc("MC_MetricsSync", c, rundir=ctx.rundir.path, workers=workers, timeout_s=timeout_s, tag="wit-" + w)
-        ctx.add_tlc("witness %s (%s)" % (w, mc.name()), r)
+def _cfgfile(rundir, mc, fname, hist, invariants):
+    p = os.path.join(rundir, fname)
+    with open(p, "w") as f:
+        f.write(mc.text(hist, invariants))
+    return p
+
+
+# Generation jobs: pure functions of (rundir) returning (behaviours, [(name, TLCResult, complete)]); they are
+# run a few at a time (each TLC start costs ~2 s of JVM) by run_jobs(), which does the ctx bookkeeping.
+def witness_job(mc, w, *, must=True, timeout_s=300):
+    """A shortest behaviour ending in a Collect in which the rare step `w` happened (workers=1: the
+    choice among equally short behaviours is deterministic)."""
+    def job(rundir, i):
+        c = _cfgfile(rundir, mc, "wit%d.cfg" % i, True, [w])
+        r = T.tlc("MC_MetricsSync", c, rundir=rundir, workers=1, timeout_s=timeout_s, tag="wit%d-%s" % (i, w))
         b = r.printed("BEH")
         if r.status != "invariant" or not b:
             if must:
                 raise Broken("witness %s not reachable in %s (vacuity): %s" % (w, mc.name(), r.status))
-            continue
-        out.append({"mc": mc, "events": b[0], "src": w})
-    return out
+            return [], [("witness %s (%s)" % (w, mc.name()), r)]
+        return [{"mc": mc, "events": b[0], "src": w}], [("witness %s (%s)" % (w, mc.name()), r)]
+    return job
 
 
-def bfs_behaviours(ctx, mc, *, emit="EmitEvery", workers=4, timeout_s=300, limit=None, seed=1, tag="bfs"):
-    """All behaviours of the bounded model that end in a Collect (or all complete ones: EmitAll)."""
-    c = mc.write(ctx, tag + ".cfg", True, [emit])
-    r = T.tlc("MC_MetricsSync", c, rundir=ctx.rundir.path, workers=workers, timeout_s=timeout_s, tag=tag)
-    ctx.add_tlc("behaviours %s (%s)" % (emit, mc.name()), r)
-    if r.status not in ("ok", "timeout"):
-        raise Broken("behaviour generation failed: %s %s" % (r.status, r.out[-2000:]))
-    return _dedupe([{"mc": mc, "events": b, "src": "bfs"} for b in r.printed("BEH")], limit, seed)
+def bfs_job(mc, *, emit="EmitEvery", workers=2, timeout_s=300, limit=None, seed=1):
+    """All behaviours of the bounded model that end in a Collect (a seeded sample beyond `limit`)."""
+    def job(rundir, i):
+        c = _cfgfile(rundir, mc, "bfs%d.cfg" % i, True, [emit])
+        r = T.tlc("MC_MetricsSync", c, rundir=rundir, workers=workers, timeout_s=timeout_s, tag="bfs%d" % i)
+        if r.status not in ("ok", "timeout"):
+            raise Broken("behaviour generation failed: %s %s" % (r.status, r.out[-2000:]))
+        behs = _dedupe([{"mc": mc, "events": b, "src": "bfs"} for b in r.printed("BEH")], limit, seed)
+        return behs, [("behaviours %s (%s)" % (emit, mc.name()), r)]
+    return job
 
 
-def sim_behaviours(ctx, mc, *, num, depth, seed, workers=1, timeout_s=300, limit=None, tag="sim"):
-    c = mc.write(ctx, tag + ".cfg", True, ["EmitAll"])
-    r = T.tlc("MC_MetricsSync", c, rundir=ctx.rundir.path, workers=workers, timeout_s=timeout_s,
-              simulate={"num": num, "depth": depth}, seed=seed, tag=tag)
-    if r.status != "ok":
-        raise Broken("simulate failed: %s %s" % (r.status, r.out[-2000:]))
-    return _dedupe([{"mc": mc, "events": b, "src": "simulate"} for b in r.printed("BEH")], limit, seed)
+def sim_job(mc, *, num, depth, seed, timeout_s=300, limit=None):
+    """Random walks (-simulate, workers=1 so that the walks are a function of the seed)."""
+    def job(rundir, i):
+        c = _cfgfile(rundir, mc, "sim%d.cfg" % i, True, ["EmitAll"])
+        r = T.tlc("MC_MetricsSync", c, rundir=rundir, workers=1, timeout_s=timeout_s,
+                  simulate={"num": num, "depth": depth}, seed=seed, tag="sim%d" % i)
+        if r.status != "ok":
+            raise Broken("simulate failed: %s %s" % (r.status, r.out[-2000:]))
+        return _dedupe([{"mc": mc, "events": b, "src": "simulate"} for b in r.printed("BEH")], limit, seed), []
+    return job
+
+
+def run_jobs(ctx, jobs, parallel=4):
+    with cf.ThreadPoolExecutor(max_workers=parallel) as ex:
+        futs = [ex.submit(j, ctx.rundir.path, i) for i, j in enumerate(jobs)]
+        results = [f.result() for f in futs]
+    behs = []
+    for b, runs in results:
+        behs += b
+        for name, r in runs:
+            ctx.add_tlc(name, r)
+    return behs
 
 
 def _dedupe(behs, limit=None, seed=1):
